@@ -289,6 +289,8 @@ class EngineBase:
         for c in reversed(self.mro(cname)):
             sc = self.reg.classes.get(c)
             if sc is not None and fname in sc.fields:
+                if getattr(sc, 'shares', None):
+                    return sc.shares, self.reg.classes[sc.shares].kind(self.reg, fname)
                 return c, sc.kind(self.reg, fname)
         # also allow subclass fields when the static type is a base (dynamic)
         for c in self.subclasses(cname):
@@ -456,6 +458,9 @@ class EngineBase:
         if isinstance(kind, KOpt) and isinstance(v, (TupleVal, LocalDict)):
             inner = self.coerce_to(st, v, kind.inner)
             return SVal(kind, [z3.BoolVal(False)] + list(inner.t))
+        from core import KStr, KName
+        if kind == KStr and isinstance(v, SVal) and v.kind == KName:
+            return SVal(KStr, [self.to_str(v)])       # a name used as text
         return ops.coerce(v, kind)
 
     # ------------------------------------------------------------ symbolic inputs
